@@ -61,5 +61,22 @@ PROPS["C07"] = {
     "assumptions": ["paths are valid UTF-8 without '\\' or '\"'"],
 }
 
+PROPS["C14"] = {
+    "variants": ["v1", "v2"],
+    "lean": ["Gengo.Props.C14"],
+    "level": "proof",
+    "level_text": "Kernel-checked theorems on the model of NameStrategy/Joiner/removePrefixAndSuffix/filterDirs and the plural namer; "
+                  "differential correspondence on shuffled call orders with shared sub-objects (exercising the identity-keyed cache) and an "
+                  "independent recomputation of the documented name shape.",
+    "level_note": "Trusted: Lean kernel, the model (validated by correspondence), ASCII restriction of strings.ToUpper/ToLower (the property "
+                  "quantifies over ASCII names). The identity-keyed cache is not part of the pure model; its transparency is established by the "
+                  "correspondence on shuffled call orders.",
+    "rule": "random strategies (prefix, suffix incl. digit-only ones, public/private, ignore words, prepend count 0..3) x 1..4 types (named across "
+            "9 package paths with '-' and '.' in directory names, builtins, and anonymous nestings up to depth 3 of map/slice/array/pointer/"
+            "chan/struct/interface/func) named in a random call order with a shared sub-object in a third of the cases; plural over 34 words "
+            "x exception tables x 3 finalizers. Non-trivial = an anonymous type or prepend > 0; distinct = distinct line.",
+    "assumptions": ["ASCII names (strings.ToUpper/ToLower on the first byte)"],
+}
+
 # properties not claimed, with the reason (kept current by hand)
 NOT_APPLICABLE = {}
